@@ -66,6 +66,12 @@ Theorem encoded_prefix_is_sealed : forall (l : list str) (b : str),
   quoted_str_split (join_sp (map encode_quoted_str l) ++ c_space :: b) = l ++ quoted_str_split b.
 Proof. exact split_encoded_prefix. Qed.
 
+(** The wire form of an argument is the argument plus its two quotes, plus at most one escaping
+    backslash per character: never more than twice its length plus two. *)
+Theorem encoding_bounded : forall s : str,
+  (length s + 2 <= length (encode_quoted_str s) <= 2 * length s + 2)%nat.
+Proof. exact encode_length. Qed.
+
 (** UTF-8: what the server decodes is what the client's string was. *)
 Theorem utf8_decode_encode : forall s : str, all_scalar s = true -> utf8_decode (utf8_encode s) = Some s.
 Proof. exact utf8_roundtrip. Qed.
